@@ -12,3 +12,4 @@ import WowVerif.Props.C08
 #print axioms Wv.C08.patched_read_verified
 #print axioms Wv.C08.unreadable_patch_is_error
 #print axioms Wv.C08.listed_iff_found
+#print axioms Wv.C08.plain_read_is_winners_content
